@@ -26,7 +26,7 @@ func init() {
 			"values are kept inside the differentiable region and |v| <= 50 by the value-aware generator",
 			"the hook call verifRule(edge) sits immediately before edge.gradFn(); if it were lost the hook clause reports inconclusive and the allocation twin still decides the clause",
 		},
-		FloorQuick: 4000, FloorThor: 40000,
+		FloorQuick: 4000, FloorThor: 15000,
 		Run: runC01,
 		Finish: func(c *fw.Ctx, m *fw.Report, cov map[string]any) {
 			if m.Counters["hook_silent_backprops"] > 0 {
